@@ -65,6 +65,7 @@ class Interp:
         self.advance_stmts = set()
         self.advance = self._find_advance()
         self.locate = self._find_locate()
+        self.imprecise = set()
         self.n_steps = 0
         self.call_ctx = []
         self.ret_trace = {}
@@ -120,12 +121,55 @@ class Interp:
                     v = any(searches(q, stack + (p,)) for q in cg.get(p, ()))
             memo[p] = v
             return v
+        # ... and that do not themselves advance over records (a helper that searches AND advances - e.g. the loop of
+        # a record-set read moved into its own function - reports "something was found", not "a record is located")
+        adv_memo = {}
+
+        def advances(p, stack=()):
+            if p in adv_memo:
+                return adv_memo[p]
+            if p in stack:
+                return False
+            v = p in self.advance or any(advances(q, stack + (p,)) for q in cg.get(p, ()))
+            adv_memo[p] = v
+            return v
+        # ... and that can suspend the search of a record (they, or what they call, record the "incomplete" marker:
+        # State::Incomplete / incomplete_pos = Some(..)).  The scan for the first record start (init) reads the
+        # buffer too but never suspends: its `true` means "there is input", not "a record is located".
+        inc_memo = {}
+
+        def suspends(p, stack=()):
+            if p in inc_memo:
+                return inc_memo[p]
+            if p in stack:
+                return False
+            b = self.prog.bodies.get(p)
+            v = False
+            if b is not None:
+                for blk in b.blocks:
+                    for st in blk.stmts:
+                        if st.k != 'assign':
+                            continue
+                        names = [q['name'] for q in st.place.proj if q['k'] == 'field']
+                        if st.rv.k == 'agg' and st.rv.j.get('variant') == 'Incomplete':
+                            v = True
+                        if names[-1:] == ['incomplete_pos'] or (st.rv.k == 'agg' and st.rv.j.get('variant') == 'Some' and 'RecordPos' in str(b.local_tys[st.place.local] if st.place.is_local() else '')):
+                            v = True
+                if not v:
+                    v = any(suspends(q, stack + (p,)) for q in cg.get(p, ()))
+            inc_memo[p] = v
+            return v
         out = set()
         for b in self._reader_bodies():
             ret = b.local_tys[0]
-            if ret.startswith('std::result::Result<bool, %s' % self.err_adt) and searches(b.path):
+            if ret.startswith('std::result::Result<bool, %s' % self.err_adt) and searches(b.path) and not advances(b.path) and suspends(b.path):
                 out.add(b.path)
         return out
+
+    def fresh_bool(self, rv):
+        """an unknown boolean with the identity of the expression that produced it (stable across loop iterations):
+        copies of it are refined together when one of them is branched on"""
+        return ('b?', id(rv), False)
 
     # ------------------------------------------------------------------ values
     def variant_index(self, adt, variant):
@@ -450,7 +494,7 @@ class Interp:
                 elif (a == ('cnt', 0) and (c == ('ge1',) or (c[0] == 'int' and c[1] >= 1))) or (c == ('cnt', 0) and (a == ('ge1',) or (a[0] == 'int' and a[1] >= 1))):
                     r = False
                 if r is None:
-                    return ('b?',)
+                    return self.fresh_bool(rv)
                 return B(r if op == 'Eq' else not r)
             if op in ('Lt', 'Le', 'Gt', 'Ge'):
                 if a[0] == 'int' and c[0] == 'int':
@@ -462,7 +506,33 @@ class Interp:
                     return B({'Lt': True, 'Le': True, 'Gt': False, 'Ge': False}[op])
                 if c == ('cnt', 0) and ge1(a):
                     return B({'Lt': False, 'Le': False, 'Gt': True, 'Ge': True}[op])
-                return ('b?',)
+                # counts as intervals: cnt 0 = [0,0], cnt 1 = [1,inf), requested count = [1,inf), literals exact
+                def itv(v):
+                    if v[0] == 'int':
+                        return (v[1], v[1])
+                    if v == ('cnt', 0):
+                        return (0, 0)
+                    if v == ('cnt', 1) or v == ('ge1',):
+                        return (1, None)
+                    return None
+                ia, ic = itv(a), itv(c)
+                if ia is not None and ic is not None:
+                    def lt(x, y):      # x < y for all members?  True / False / None
+                        if x[1] is not None and x[1] < y[0]:
+                            return True
+                        if y[1] is not None and x[0] >= y[1]:
+                            return False
+                        return None
+                    def le(x, y):
+                        if x[1] is not None and x[1] <= y[0]:
+                            return True
+                        if y[1] is not None and x[0] > y[1]:
+                            return False
+                        return None
+                    r = {'Lt': lt(ia, ic), 'Le': le(ia, ic), 'Gt': lt(ic, ia), 'Ge': le(ic, ia)}[op]
+                    if r is not None:
+                        return B(r)
+                return self.fresh_bool(rv)
             if op.startswith('Add') and (a[0] == 'cnt' or c[0] == 'cnt'):
                 return ('cnt', 1)
             return TOP
@@ -470,8 +540,10 @@ class Interp:
             a = self.eval_op(body, rv.ops[0], store, heap)
             if rv.j['op'] == 'Not' and a[0] == 'b':
                 return B(not a[1])
+            if rv.j['op'] == 'Not' and a[0] == 'b?':
+                return ('b?', a[1] if len(a) > 1 else None, not (a[2] if len(a) > 2 else False))   # the same unknown, negated
             if rv.j['op'] == 'Not':
-                return ('b?',)
+                return self.fresh_bool(rv)
             return TOP
         if k == 'cast':
             return self.eval_op(body, rv.ops[0], store, heap)
@@ -547,8 +619,16 @@ class Interp:
                 if body.blocks[tg].term.k == 'unreachable' and not body.blocks[tg].stmts:
                     continue
                 st2 = dict(store)
-                if v == ('b?',) and not t.discr.is_const and t.discr.place.is_local():
-                    st2[t.discr.place.local] = B(val != 0) if val is not None else B(True)
+                if v[0] == 'b?':
+                    truth = (val != 0) if val is not None else True
+                    if not t.discr.is_const and t.discr.place.is_local():
+                        st2[t.discr.place.local] = B(truth)
+                    # every copy of the same unknown (and its negations) is now known on this branch
+                    if len(v) > 1 and v[1] is not None:
+                        base_truth = truth != (v[2] if len(v) > 2 else False)
+                        for l2, v2 in list(st2.items()):
+                            if isinstance(v2, tuple) and v2[:1] == ('b?',) and len(v2) > 1 and v2[1] == v[1]:
+                                st2[l2] = B(base_truth != (v2[2] if len(v2) > 2 else False))
                 outs.append((tg, st2, heap.copy()))
             return outs
         if k == 'call':
@@ -572,6 +652,16 @@ class Interp:
             for v in self.havoc(body.local_tys[t.dest.local] if t.dest.is_local() else ''):
                 finish(v, heap.copy())
             return outs
+        # reader code that runs inside a closure handed to a combinator (`seek(..).and_then(|_| fill_buf(..))`): its effects on
+        # the abstract state are not modelled -> the state-machine rules give no verdict for this format
+        if c.path.startswith(('std::result::Result::', 'std::option::Option::')) and body.key.startswith(self.reader + '::'):
+            for cl in self.prog.closures_of(body):
+                if any(a.is_const and a.j.get('closure') == cl.path for a in t.args) or any(
+                        (not a.is_const) and any(r[0] == 'agg' and r[1].rv.j.get('closure') == cl.path for r in roots_of(body, a)) for a in t.args):
+                    for _, t2 in cl.calls():
+                        cb2 = self.prog.local_callee_body(t2.callee)
+                        if (cb2 is not None and (cb2.path in self.refills or cb2.key.startswith(self.reader + '::'))) or (t2.callee and 'buffer_redux' in t2.callee.target_path()):
+                            self.imprecise.add('%s runs reader code inside a closure passed to %s' % (body.key, c.path))
         path = c.path
         cb = self.prog.local_callee_body(c)
         dest_ty = body.local_tys[t.dest.local]
@@ -791,6 +881,10 @@ class Interp:
                 self.violate('FSM-S5', body, t, 'compaction-allowed-while-set-holds-records',
                              'the resumed search may move the buffer (flag true) although the record set under construction already holds records: their offsets would refer to moved bytes', heap)
             for (rv, hp) in self.run_fn(cb, heap, args + [TOP] * (cb.arg_count - len(args))):
+                if cb.path in self.locate and isinstance(rv, tuple) and rv[:3] == ('e', 'Result', 'Ok') and rv[3] and isinstance(rv[3][0], tuple) and rv[3][0][:1] != ('b',):
+                    # the search reports an outcome that this abstraction cannot tie to a branch (e.g. `Ok(found)` computed from
+                    # buffer contents): the ghost "a record is located" is then unreliable -> the FSM rules give no verdict
+                    self.imprecise.add('the result of %s is a computed boolean, not a literal on each path' % cb.key)
                 if cb.path in self.locate and rv == E('Result', 'Ok', B(True)):
                     hp['complete'] = True
                 finish(rv, hp)
